@@ -446,6 +446,42 @@ fn forget_fn(s: Arc<Sink>) -> roto::Function {
     .expect("forget item")
 }
 
+/// Live `Lease` tokens: the captured state of the closure `lease_ok`, which is ZERO-SIZED but
+/// has a destructor (a guard / registration token). Like every closure capture it belongs to the
+/// runtime and to every module compiled from it.
+static LEASES: std::sync::atomic::AtomicI64 = std::sync::atomic::AtomicI64::new(0);
+
+struct Lease;
+
+impl Lease {
+    fn new() -> Lease {
+        LEASES.fetch_add(1, std::sync::atomic::Ordering::SeqCst);
+        Lease
+    }
+}
+
+impl Drop for Lease {
+    fn drop(&mut self) {
+        LEASES.fetch_sub(1, std::sync::atomic::Ordering::SeqCst);
+    }
+}
+
+fn lease_fn() -> roto::Function {
+    let lease = Lease::new();
+    roto::Function::new(
+        "lease_ok",
+        "a registered closure whose captured state is a zero-sized token with a destructor",
+        vec![],
+        move || -> i64 {
+            let _held: &Lease = &lease;
+            // the token must not have been released while somebody can still call this
+            if LEASES.load(std::sync::atomic::Ordering::SeqCst) > 0 { 0 } else { 1 }
+        },
+        roto::location!(),
+    )
+    .expect("lease_ok item")
+}
+
 fn make_runtime(id: usize, sink: bool) -> Runtime<NoCtx> {
     let cap = Arc::new(Trk::new(CAP_TAG + id as i64));
     let cap2 = Arc::new(Trk::new(CAP2_TAG + id as i64));
@@ -474,6 +510,7 @@ fn make_runtime(id: usize, sink: bool) -> Runtime<NoCtx> {
     // two closures of the same Rust type, each with its own captured state
     rt.add(capture_fn("cap_tag", cap)).expect("cap_tag");
     rt.add(capture_fn("cap2_tag", cap2)).expect("cap2_tag");
+    rt.add(lease_fn()).expect("lease_ok");
     if sink {
         let s = Arc::new(Sink { trk: Trk::new(SINK_TAG + id as i64), lists: Mutex::new(Vec::new()) });
         rt.add(keep_fn(s.clone())).expect("keep");
@@ -484,7 +521,7 @@ fn make_runtime(id: usize, sink: bool) -> Runtime<NoCtx> {
 
 fn script(pkg_id: usize, sink: bool) -> String {
     let t = SC_TAG + pkg_id as i64;
-    let base = "SC.tag() * 1000000 + RC.tag() * 10 + cap_tag() % 10 + (cap2_tag() % 10) * 100000000000 + N * 0";
+    let base = "SC.tag() * 1000000 + RC.tag() * 10 + cap_tag() % 10 + (cap2_tag() % 10) * 100000000000 + N * 0 + lease_ok() * 7777";
     if !sink {
         // ZG: a script constant of a zero-sized drop-tracked type. It is never read (compiled
         // code neither clones nor drops zero-sized values: a known finding of C03); creating it
@@ -698,6 +735,16 @@ impl World {
         }
         let live = live_tags();
         let exp = self.m.expected_live();
+        // zero-sized closure state: one token per runtime whose closures somebody still owns
+        let leases = LEASES.load(std::sync::atomic::Ordering::SeqCst);
+        let exp_leases = exp.keys().filter(|t| (CAP_TAG..CAP2_TAG).contains(*t)).count() as i64;
+        if leases != exp_leases {
+            let kind = if leases < exp_leases { "released-too-early" } else { "not-released" };
+            return Err((
+                format!("lifetimes:{kind}:zero-sized-closure-state@{op:?}"),
+                format!("{leases} zero-sized closure tokens are live, the ownership model expects {exp_leases} (one per runtime whose closures are still owned)"),
+            ));
+        }
         if live != exp {
             let early: Vec<i64> = exp.keys().filter(|t| !live.contains_key(t)).copied().collect();
             let late: Vec<i64> = live.keys().filter(|t| !exp.contains_key(t)).copied().collect();
@@ -996,6 +1043,7 @@ impl Family for Lifetimes {
             out.tags.push("scenario:closure-holds-script-list".into());
         }
         host::ledger_reset();
+        LEASES.store(0, std::sync::atomic::Ordering::SeqCst);
         let mut w = World::new(plan.sink);
         let mut trace: Vec<String> = Vec::new();
         let mut ops_done = 0u64;
